@@ -3,8 +3,10 @@
 Real eko.solve on every card within the deviation bound of four base cards; the operator stored
 for (mu0^2, nf0) must be exactly the identity on the 13 QCD partons, with the photon decoupled
 (zero row and column) in pure QCD and mapped identically with QED. A second block displaces the
-target by 1e-12 (the equal-scale shortcut still fires) and by 3e-5 relative (it does not: the
-real kernels run at a1 ~ a0 and must give 1 + O(1e-3)).
+target by one ulp of mu (equal up to rounding: the zero-length shortcut, rtol 1e-14, still fires and
+the identity must be exact) and by 1e-12 and 3e-5 relative (it does not: the real kernels run at
+a1 ~ a0 and must give 1 + O(1e-3)). A third block lists the identity target
+together with further targets (one matching up / down) in one card.
 """
 
 import numpy as np
@@ -19,7 +21,7 @@ LEVEL_TEXT = (
     "every card differing from one of 4 base cards in at most 2 (thorough 3) of 10 settings is solved by the real "
     "eko.solve and the operator at the initial point compared entry by entry with the identity (zeros and ones to 8 ulp: the flavour blow-up sums products of small rationals)"
 )
-LEVEL_NOTE = "cards outside the deviation bound are not explored; grids limited to 2-8 points; interpreted mode"
+LEVEL_NOTE = "cards outside the deviation bound are not explored; multi-target cards only around the LO base card; cards with the debug skip flags are excluded (they leave a sector uncomputed by design); grids limited to 2-8 points; interpreted mode"
 FLOOR_NONTRIVIAL = 100
 
 M = [2.0, 4.5, 173.07]
@@ -86,11 +88,24 @@ def to_cfg(assign, displace=0.0):
         if lo is None and hi is not None:
             mu0 = hi * 0.7
     raw["init"] = [mu0, nf0]
-    raw["mugrid"] = [[mu0 * (1.0 + displace) ** 0.5, nf0]]
+    if displace == "ulp":
+        # equal up to rounding: the neighbouring float of mu0 (mu^2 differs from mu0^2 by ~4e-16 relative)
+        raw["mugrid"] = [[float(np.nextafter(mu0, np.inf)), nf0]]
+    else:
+        raw["mugrid"] = [[mu0 * (1.0 + displace) ** 0.5, nf0]]
     raw["iterations"] = 2
     raw["max_order"] = [3, 0]
     raw["masses"] = M
     return raw
+
+
+def _others(cfg, which):
+    """Further targets computed together with the identity target: one matching up / one matching down (same nf at the edges)."""
+    mu0, nf0 = cfg["init"]
+    walls = [m * r for m, r in zip(M, cfg["ratios"])]
+    up = [walls[nf0 - 3] * 1.5, nf0 + 1] if nf0 < 6 else [mu0 * 2.0, nf0]
+    dn = [walls[nf0 - 4] * 0.7, nf0 - 1] if nf0 > 3 else [mu0 * 0.9, nf0]
+    return {"up": [up], "down": [dn], "both": [dn, up]}[which]
 
 
 def _check_identity(res, op, qed, sig, where, tol_ulp=8):
@@ -127,12 +142,22 @@ def _classes(cfg):
 def evaluate(case):
     assign = case["assign"]
     mode = case.get("mode", "exact")
-    displace = {"exact": 0.0, "shortcut": 1e-12, "kernel": 3e-5}[mode]
+    # "shortcut": target equal to the initial scale up to rounding (documented: segments of zero length up to rounding are
+    # skipped); "kernel12" / "kernel": displaced by 1e-12 / 3e-5 relative in mu^2, outside the rounding window -> real kernels
+    displace = {"exact": 0.0, "shortcut": "ulp", "kernel12": 1e-12, "kernel": 3e-5}[mode]
     cfg = to_cfg(assign, displace)
     res = Result()
     qed = cfg["order"][1] > 0
+    others = case.get("others")
+    ident_target = list(cfg["mugrid"][0])
+    if others:
+        # the identity target is one of several: the runner's per-target loop, recipe de-duplication and part retrieval
+        # run with the parts of the other targets present
+        extra = _others(cfg, others)
+        cfg["mugrid"] = ([ident_target] + extra) if case.get("pos", "first") == "first" else (extra + [ident_target])
+        cfg["inversion"] = "exact"
     where = f"mode={mode} cfg={ {k: cfg[k] for k in ('order','method','polarized','time_like','init','mugrid','xgrid','degree','sv','xif','em_running','ratios')} }"
-    sig = f"solve/identity/{mode}/{_classes(cfg)}"
+    sig = f"solve/identity/{mode}/{_classes(cfg)}" + (f"/with-others={others}" if others else "")
     try:
         if mode == "exact":
             # decoy: another EKO in the same process with the same thresholds and initial scale but another initial
@@ -140,7 +165,7 @@ def evaluate(case):
             nf0 = cfg["init"][1]
             dnf = nf0 + 1 if nf0 < 6 else nf0 - 1
             try:
-                cards.solve_ops(dict(cfg, init=[cfg["init"][0], dnf], mugrid=[[cfg["mugrid"][0][0], dnf]]), tag="c01decoy")
+                cards.solve_ops(dict(cfg, init=[cfg["init"][0], dnf], mugrid=[[ident_target[0], dnf]]), tag="c01decoy")
             except Exception:  # noqa - the decoy's own outcome is not judged here
                 pass
         ops = cards.solve_ops(cfg, tag="c01")
@@ -153,15 +178,17 @@ def evaluate(case):
         res.fail(f"solve/identity/crash/{type(e).__name__}/{_classes(cfg)}", f"{where}: {type(e).__name__}: {str(e)[:300]}")
         res.outcome = "crash"
         return res
-    if len(ops) != 1:
-        res.fail(sig + "/points", f"{where}: archive holds {sorted(ops)}")
+    want = {(float(m) ** 2, n) for m, n in cfg["mugrid"]}
+    ep = (float(ident_target[0]) ** 2, ident_target[1])
+    if {(float(k[0]), k[1]) for k in ops} != want or len(ops) != len(want):
+        res.fail(sig + "/points", f"{where}: archive holds {sorted(ops)}, requested {sorted(want)}")
         return res
-    (ep, (op, err)), = ops.items()
+    op, err = ops[ep]
     if mode in ("exact", "shortcut"):
         w = _check_identity(res, op, qed, sig, where)
         res.info = {"max_dev_exact": w}
     else:
-        # real kernels at a displacement of 1e-9: identity up to O(1e-7)
+        # real kernels at a displacement of 1e-12 / 3e-5: identity up to the Mellin-inversion error on the tiny grid
         g = op.shape[1]
         ident = np.zeros_like(op)
         for o in range(14):
@@ -169,10 +196,12 @@ def evaluate(case):
                 ident[o, :, o, :] = np.eye(g)
         # the last grid point (x=1) row is never integrated; interpolation of the identity is exact at nodes
         dev = float(np.abs(op - ident).max())
-        res.info = {"max_dev_kernel": dev}
-        if not np.isfinite(dev) or dev > 2e-2 or dev == 0.0:
-            res.fail(sig + "/near-identity", f"{where}: |E - 1| = {dev:.3e} for a relative displacement of 3e-5 (just outside the equal-scale shortcut)")
-    res.outcome = f"identity:{mode}:{'qed' if qed else 'qcd'}"
+        res.info = {"max_dev_kernel" if mode == "kernel" else "max_dev_kernel12": dev}
+        # 3e-5: bound 2e-2 (measured 6.3e-4); 1e-12: the deviation scales with the displacement (measured 2.1e-11 in both tiers)
+        bound = 2e-2 if mode == "kernel" else 1e-8
+        if not np.isfinite(dev) or dev > bound or dev == 0.0:
+            res.fail(sig + "/near-identity", f"{where}: |E - 1| = {dev:.3e} for a relative displacement of {displace:g} (outside the zero-length shortcut: real kernels)")
+    res.outcome = f"identity:{mode}:{'qed' if qed else 'qcd'}" + (":multi-target" if others else "")
     return res
 
 
@@ -190,11 +219,48 @@ def run(ctx):
         cases.append(dict(assign=a, mode="shortcut"))
         if a["qcd"] <= 2 and (a["grid"] == 0 or (a["grid"] == 1 and a["qed"] == 0)) and (ctx.thorough() or a["qed"] == 0):
             cases.append(dict(assign=a, mode="kernel"))
+            # 1e-12: inside the former (rtol 1e-5) shortcut window, now computed with the real kernels at a1 - a0 ~ 1e-13
+            if a["grid"] == 0 or a["qcd"] == 0:
+                cases.append(dict(assign=a, mode="kernel12"))
+    # cards with further targets (one matching up, one down, both), the identity target listed first / last
+    multi = []
+    b0 = BASES[0]
+    for place in range(len(PLACEMENTS)):
+        for others in ("up", "down", "both"):
+            for pos in ("first", "last"):
+                multi.append((dict(b0, place=place), others, pos))
+    for pos in ("first", "last"):
+        for kind in (1, 2):
+            for place in (4, 7):
+                multi.append((dict(b0, kind=kind, place=place), "both", pos))
+        for place in (3, 4, 8):
+            multi.append((dict(b0, qcd=1, place=place), "both", pos))  # NLO: non-trivial matching in the other targets
+        for sv in (1, 3, 4):
+            multi.append((dict(b0, sv=sv), "both", pos))
+        multi.append((dict(b0, ratios=2), "both", pos))
+    if ctx.thorough():
+        for pos in ("first", "last"):
+            for others in ("up", "down", "both"):
+                multi.append((dict(BASES[3], grid=0), others, pos))  # QED with running alpha_em, 2-point grid
+            for method in range(1, len(cards.METHODS)):
+                multi.append((dict(b0, qcd=1, method=method), "both", pos))
+            for place in (1, 4, 7, 10):
+                multi.append((dict(b0, qcd=2, place=place), "both", pos))
+    n_multi = len(multi)
+    for a, others, pos in multi:
+        cases.append(dict(assign=a, mode="exact", others=others, pos=pos))
     ctx.run_cases(cases, evaluate)
     ctx.rule = (
         f"all cards within {k} deviations of {len(bases)} base cards (+ <=2 of all 4) over 10 dimensions (QCD order 1-4, QED 0-2, 8 methods, "
         "unpol/pol/time-like, 12 (nf0, scale) placements on and inside the patch walls, 6 grids log/linear 2-8 points, degree 1-4, "
-        "5 scale-variation settings, em running, 3 matching-ratio sets), target = initial point; plus targets displaced by 1e-12 "
-        "(shortcut) and 3e-5 (real kernels) on the <=1-deviation sets; non-trivial = solved (not refused)"
+        "5 scale-variation settings, em running, 3 matching-ratio sets), target = initial point; plus targets displaced by one ulp of mu "
+        f"(equal up to rounding: shortcut, exact identity) on the <=1-deviation sets and by 1e-12 / 3e-5 (real kernels, 0 < |E-1| < 1e-8 / 2e-2) on their tiny-grid, <= NNLO members; {n_multi} cards where the identity target is listed first / last "
+        "together with a target one matching up, one matching down, or both (all 12 placements at LO; pol / time-like, NLO on and inside "
+        "the walls, 3 scale-variation settings, shifted matching ratios"
+        f"{'; thorough: QED with running alpha_em, all methods at NLO, NNLO' if ctx.thorough() else ''}); non-trivial = solved (not refused)"
     )
-    ctx.assumptions += ["refusals (NotImplementedError/ValueError) are C04's subject and count as trivial here"]
+    ctx.assumptions += [
+        "refusals (NotImplementedError/ValueError) are C04's subject and count as trivial here",
+        "cards with the debug skip flags (skip_singlet / skip_non_singlet) are outside the property: their documented purpose is to leave a sector uncomputed",
+        "in the multi-target cards only the operator of the identity target is judged (the others must merely be present)",
+    ]
